@@ -76,3 +76,101 @@ def const_collection(e, mi, cls=None):
             if isinstance(n, ast.AnnAssign) and isinstance(n.target, ast.Name) and n.target.id == name and n.value is not None:
                 return lit(n.value)
     return None
+
+
+def method_table(e, mi, cls):
+    """If e is TABLE[x] / TABLE.get(x) / self.TABLE… for a class-level dict literal whose keys are constants and whose values are all plain
+    references to functions defined in the same class body: ({key: method name}, key expr); else None."""
+    if cls is None:
+        return None
+    name, key = None, None
+    b = e
+    if isinstance(e, ast.Subscript):
+        b, key = e.value, e.slice
+    elif isinstance(e, ast.Call) and isinstance(e.func, ast.Attribute) and e.func.attr == 'get' and e.args:
+        b, key = e.func.value, e.args[0]
+    else:
+        return None
+    if isinstance(b, ast.Name):
+        name = b.id
+    elif isinstance(b, ast.Attribute) and isinstance(b.value, ast.Name) and b.value.id in ('self', 'cls'):
+        name = b.attr
+    if name is None:
+        return None
+    for n in cls.node.body:
+        tgt, val = None, None
+        if isinstance(n, ast.Assign) and len(n.targets) == 1 and isinstance(n.targets[0], ast.Name):
+            tgt, val = n.targets[0].id, n.value
+        elif isinstance(n, ast.AnnAssign) and isinstance(n.target, ast.Name) and n.value is not None:
+            tgt, val = n.target.id, n.value
+        if tgt == name and isinstance(val, ast.Dict) and val.keys and all(isinstance(k, ast.Constant) for k in val.keys) \
+                and all(isinstance(v, ast.Name) and v.id in cls.methods for v in val.values):
+            return {k.value: v.id for k, v in zip(val.keys, val.values)}, key
+    return None
+
+
+def module_value(mi, name: str):
+    """the expression a module-level name is bound to (bound exactly once), or None"""
+    found = []
+    for n in mi.tree.body:
+        if isinstance(n, ast.Assign) and len(n.targets) == 1 and isinstance(n.targets[0], ast.Name) and n.targets[0].id == name:
+            found.append(n.value)
+        elif isinstance(n, ast.AnnAssign) and isinstance(n.target, ast.Name) and n.target.id == name and n.value is not None:
+            found.append(n.value)
+    return found[0] if len(found) == 1 else None
+
+
+def fold_str(e, mi, env=None, depth=0):
+    """The string a constant expression denotes, computed from the source text alone (nothing of the analysed program is run): literals,
+    `a + b`, f-strings of foldable parts, module-level names bound once, `re.escape(<foldable>)`, `<sep>.join(<elt> for v in <constant
+    collection>)` / `.join([<constants>])`, `.upper()/.lower()`.  None when the expression is not of that kind."""
+    import re as _re
+    env = env or {}
+    if depth > 6:
+        return None
+    if isinstance(e, ast.Constant):
+        return e.value if isinstance(e.value, str) else None
+    if isinstance(e, ast.Name):
+        if e.id in env:
+            return env[e.id]
+        v = module_value(mi, e.id)
+        return fold_str(v, mi, env, depth + 1) if v is not None else None
+    if isinstance(e, ast.BinOp) and isinstance(e.op, ast.Add):
+        a, b = fold_str(e.left, mi, env, depth + 1), fold_str(e.right, mi, env, depth + 1)
+        return a + b if a is not None and b is not None else None
+    if isinstance(e, ast.JoinedStr):
+        out = ''
+        for v in e.values:
+            if isinstance(v, ast.FormattedValue):
+                if v.conversion != -1 or v.format_spec is not None:
+                    return None
+                p = fold_str(v.value, mi, env, depth + 1)
+            else:
+                p = fold_str(v, mi, env, depth + 1)
+            if p is None:
+                return None
+            out += p
+        return out
+    if isinstance(e, ast.Call) and isinstance(e.func, ast.Attribute) and not e.keywords:
+        f = e.func
+        if isinstance(f.value, ast.Name) and f.value.id == 're' and f.attr == 'escape' and len(e.args) == 1:
+            a = fold_str(e.args[0], mi, env, depth + 1)
+            return _re.escape(a) if a is not None else None
+        if f.attr in ('upper', 'lower', 'strip') and not e.args:
+            a = fold_str(f.value, mi, env, depth + 1)
+            return getattr(a, f.attr)() if a is not None else None
+        if f.attr == 'join' and len(e.args) == 1:
+            sep = fold_str(f.value, mi, env, depth + 1)
+            arg = e.args[0]
+            if sep is None:
+                return None
+            if isinstance(arg, (ast.GeneratorExp, ast.ListComp)) and len(arg.generators) == 1 and not arg.generators[0].ifs and isinstance(arg.generators[0].target, ast.Name):
+                items = const_collection(arg.generators[0].iter, mi)
+                if items is None or not all(isinstance(x, str) for x in items):
+                    return None
+                parts = [fold_str(arg.elt, mi, dict(env, **{arg.generators[0].target.id: x}), depth + 1) for x in items]
+            else:
+                items = const_collection(arg, mi)
+                parts = list(items) if items is not None and all(isinstance(x, str) for x in items) else [None]
+            return sep.join(parts) if all(p is not None for p in parts) else None
+    return None
